@@ -147,6 +147,8 @@ func (r *Router) handleHTTPRequest(ctx *Context) {
 			if ret := recover(); ret != nil {
 				ctx.Set(CTXRecoverResult, ret)
 				r.OnPanic(ctx)
+				// commit what the hook produced (the normal end of the chain was skipped)
+				ctx.writer.ensureWriteHeader()
 			}
 		}()
 	}
